@@ -9,12 +9,12 @@ if len(sys.argv) > 2:
     notes = json.load(open(sys.argv[2]))
 for blk in log.split("===== ")[1:]:
     head = blk.split("\n")[0]
-    m = re.match(r"(C\d+) seed (r[234]-)?(\d) \((\S+)\)", head)
+    m = re.match(r"(C\d+) seed (r[2345]-)?(\d) \((\S+)\)", head)
     if not m:
         continue
     pid, r2, k, demo = m.group(1), m.group(2) or "", m.group(3), m.group(4)
     src = f"/tmp/seed{r2[1]}/{pid}/out/{k}" if r2 else f"/tmp/seed/{pid}/out/{k}"
-    benign = (r2 in ("r3-", "r4-") and k == "3")
+    benign = (r2 in ("r3-", "r4-", "r5-") and k == "3")
     if not os.path.isdir(src):
         continue
     dst = os.path.join(ROOT, "seeded", f"{pid}-{r2}{k}")
